@@ -377,9 +377,9 @@ func c08FrameNegatives(r *rand.Rand) []c08Neg {
 	// ACK: ranges below zero
 	add("ack-first-range-gt-largest", false, c08Enc(0x02, 5, 0, 0, 6))
 	add("ack-first-range-gt-largest", true, c08Enc(0x02, 5, 0, 0, 5))
-	add("ack-range-underflow", false, c08Enc(0x02, 10, 0, 1, 2, 7, 0))  // smallest 8, gap 7 -> largest -1
-	add("ack-range-underflow", true, c08Enc(0x02, 10, 0, 1, 2, 6, 0))   // largest 0
-	add("ack-range-underflow", false, c08Enc(0x02, 10, 0, 1, 2, 5, 2))  // largest 1, length 2
+	add("ack-range-underflow", false, c08Enc(0x02, 10, 0, 1, 2, 7, 0)) // smallest 8, gap 7 -> largest -1
+	add("ack-range-underflow", true, c08Enc(0x02, 10, 0, 1, 2, 6, 0))  // largest 0
+	add("ack-range-underflow", false, c08Enc(0x02, 10, 0, 1, 2, 5, 2)) // largest 1, length 2
 	add("ack-range-underflow", false, c08Enc(0x03, 10, 0, 1, 2, 7, 0, 1, 1, 1))
 	// frame types nobody defined, with a tail that would satisfy any body parser
 	tail := bytes.Repeat([]byte{1}, 64)
@@ -497,6 +497,19 @@ func TestVerifC08Frames(t *testing.T) {
 		for _, n := range c08FrameNegatives(l.Rand("frames/negative")) {
 			x.expect(n)
 			x.c.Eval(fmt.Sprintf("neg|%s|%v", n.rule, n.wantOK))
+		}
+		x.c.End()
+	}
+
+	// seed-independent probes: durations whose conversion to nanoseconds overflows (found by the random corpus;
+	// kept here so that the corresponding signatures do not depend on the seed)
+	if next("frames/duration-probes", nil) {
+		for _, d := range []uint64{1<<51 - 1, 1 << 51, 2305843009213694, 2305843009213695, 1<<61 + 12345, c08MaxVarint} {
+			x.c.Eval(x.total(c08Enc(0x02, 100, d, 0, 0), c08FullCfg, protocol.Encryption1RTT, protocol.Version1))
+			x.c.Eval(x.total(c08Enc(0x02, 100, d>>17, 0, 0), c08Cfg{true, true, true, 20}, protocol.Encryption1RTT, protocol.Version1))
+		}
+		for _, d := range []uint64{math.MaxInt64 / 1000, math.MaxInt64/1000 + 1, 18446744073709552, 18446744073709553, 1<<61 + 12345, c08MaxVarint} {
+			x.c.Eval(x.total(c08Enc(0xaf, 1, 2, d, 3), c08FullCfg, protocol.Encryption1RTT, protocol.Version1))
 		}
 		x.c.End()
 	}
